@@ -544,8 +544,10 @@ class Doins(_InstallWrapper):
 
     def _install_targets(self, targets):
         files, dirs = partition(targets, predicate=os.path.isdir)
-        if self.opts.recursive:
-            self.install_from_dirs(dirs)
+        dirs = list(dirs)
+        if dirs and not self.opts.recursive:
+            raise IpcCommandError(f"{dirs[0]!r} is a directory, missing -r option?")
+        self.install_from_dirs(dirs)
         self.install((f, os.path.basename(f)) for f in files)
 
 
